@@ -1,3 +1,5 @@
+//go:build verif_all || verif_c02
+
 package driver
 
 // Injected by the /verif overlay (never committed to the repository).
